@@ -34,6 +34,29 @@ PROPS["C13"] = dict(
 )
 
 
+# --------------------------------------------------------------------------- C32
+import jobs_c32
+PROPS["C32"] = dict(
+    functions=["revm_primitives::calc_excess_blob_gas", "revm_primitives::fake_exponential", "revm_primitives::calc_blob_gasprice (crates/primitives/src/utilities.rs)"],
+    bounds="calc_excess_blob_gas: all u64 triples (Kani). calc_blob_gasprice: all excess <= update fraction per schedule, unwind 14 (Kani). "
+           "fake_exponential (MIR->SMT, z3+cvc5): factor 1, both update fractions, ALL numerators 0..=N0 where N0+1 is the first numerator whose exact "
+           "intermediates leave u128 (192204552 Cancun / 284284038 Prague): per-iteration inductive certificate (K<=168 iterations), loop body == EIP-4844 step, "
+           "no overflow, termination; boundary numerator N0+1 decided by solver and replayed natively in debug and release.",
+    outside="numerators above N0+1 (known finding D8 from N0+1 upward); factors other than MIN_BLOB_GASPRICE=1; denominators other than the two constants",
+    assumptions=["product symbol P stands for acc*n; its bound 0<=P<=B_k*N0 is discharged per iteration as a separate non-linear query",
+                 "per-iteration bounds B_k/O_k are hints computed by exact big-integer simulation and are checked by the solver (inductive)",
+                 "nightly MIR of the function is faithful to what stable rustc compiles (validated each run on 15 unit-test vectors against the native function)",
+                 "Kani/CBMC, z3 4.8.12, cvc5 1.0 trusted"],
+    harnesses=[
+        H("c32::c32_excess_blob_gas_all_u64", bounds="all (excess, used, target) u64 triples whose exact result fits u64"),
+        H("c32::c32_constants", bounds="constants + zero excess"),
+        H("c32::c32_price_cancun_le_fraction", bounds="excess <= 3338477, unwind 14", timeout=1500),
+        H("c32::c32_price_prague_le_fraction", bounds="excess <= 5007716, unwind 14", timeout=1500),
+        H("c32::c32_twin_must_fail", expect_fail=True, bounds="vacuity twin"),
+    ],
+    jobs=[dict(name="e2::fake_exponential_certificate", fn=jobs_c32.run)],
+)
+
 # --------------------------------------------------------------------------- manifest text per claimed property
 CLAIMS = {
     "C13": dict(
@@ -44,7 +67,18 @@ CLAIMS = {
              "refunded>=0 before set_final_refund. Sequences >4 steps only via the inductive invariant.",
         technique="Kani/CBMC bounded model checking of the real Gas methods (SAT, full 64-bit domain, single-step induction + 4-step sequences)",
         design_ref="DESIGN.md §5 C13"),
+    "C32": dict(
+        text="calc_excess_blob_gas is decided for all u64 triples by CBMC. fake_exponential is translated from the nightly MIR dump into SMT-LIB "
+             "(integers with explicit u128 overflow flags) and an inductive per-iteration certificate is discharged by z3 and cvc5: for every "
+             "numerator up to the first one whose exact intermediates exceed u128 the loop body equals the EIP-4844 step, never overflows and "
+             "terminates, hence the result equals the unbounded-integer definition. The boundary numerator is decided by the solver and replayed natively.",
+        note="Bounded: numerators <= 192204552 (Cancun) / 284284038 (Prague); from the next numerator on the u128 product wraps (known finding, "
+             "listed in known_findings.txt). Trusted: nightly MIR == compiled semantics (validated on the unit-test vectors each run), z3, cvc5, Kani/CBMC.",
+        technique="MIR->SMT-LIB inductive certificate (z3+cvc5) for fake_exponential; Kani/CBMC for calc_excess_blob_gas and low-range price",
+        engine="kani-cbmc + smt-mir",
+        design_ref="DESIGN.md §5 C32"),
 }
+SMT_SERVES = {"C32"}
 
 # --------------------------------------------------------------------------- not applicable (reason shown in MANIFEST.json)
 NOT_APPLICABLE = {
